@@ -859,6 +859,8 @@ type server struct {
 	all404 bool
 }
 
+var hoffNoted bool
+
 var rangeRe = regexp.MustCompile(`^bytes=(\d+)-(\d+)$`)
 
 func newServer() *server {
@@ -1504,6 +1506,9 @@ func (s *state) hFetch(offset, length int, rs string) string {
 		want := fmt.Sprintf("piece=%d&ranges=%d-%d", s.index, offset, offset+length)
 		if !strings.Contains(reqs[0].query, want) {
 			s.c.Note("hoffman query differs from the pinned (off-by-one) form: " + reqs[0].query)
+		} else if !hoffNoted {
+			hoffNoted = true
+			s.c.Note("noted, outside the property text: Hoffman.Get asks for ranges=o-(o+l), one byte more than the inclusive range o..o+l-1 (e.g. " + want + ")")
 		}
 	}
 	s.allHonest = sp.status == 200 && sp.fin == 'e' && n >= length && (sp.cl == "-" || sp.cl == strconv.Itoa(length))
